@@ -49,9 +49,44 @@ CLAIMS = {
          "Config keys agree between validator, extractor and reference; banks and segments live in insertion-ordered containers and write_banks walks its Vec; the prg "
          "header bytes and defaults have the documented shape; every documented error has a diagnostic and Ok is returned only without errors; no configured option is "
          "overwritten without an absence test; the merge places segments at (start − bank start) with min/max ranges. Offsets on concrete configurations are not decided.", "§4 C09"),
+ "C10": ("type-directed hash-order detection on MIR (receiver types embed their source iterator) + frozen classification table + total-sort recognition",
+         "Every consumer of a std hash_map/hash_set iterator in non-test code is order-insensitive by nature, sorted on a key that identifies the element, or tabled safe "
+         "with a reason; containers whose order reaches output are insertion-ordered; the CLI emitter prints diagnostics in collection order. A new unclassified site is "
+         "reported. Environment nondeterminism is not decided.", "§4 C10"),
+ "C11": ("must-pass-through on MIR + two interprocedural label propagations (target vs physical address space)",
+         "Single emission choke point with a source-map entry of exactly the emitted length on every path; no comparison or subtraction mixes a target-space address with "
+         "a physical one without the relocation offset; macro re-attribution only under the listing option; half-open address lookups. Row layout of listings is not decided.", "§4 C11"),
+ "C12": ("formatter coverage and trivia-carrier rules on typed HIR + dominance on MIR",
+         "Every text-carrying field of every AST variant is emitted; a Located emitted through `.data` is the token's leading element or tabled (so its comments cannot be lost); "
+         "both comment kinds become comment chunks and only blank lines are suppressed; `mos format` writes only after the whole project parsed. Token-sequence and byte "
+         "equality after formatting are not decided.", "§4 C12"),
+ "C14": ("field-effect/dominance on MIR, label propagation CLIENTPOS/BYTELEN, hash-order classification, capability table",
+         "Analysis results are reset before any early return and recomputed by every handler that changes the buffer set; request handlers do not mutate the shared analysis; "
+         "client positions never reach a panicking index; client URIs are never force-unwrapped; no hash order in answers; positions sent are not byte offsets; advertised "
+         "capabilities equal registered handlers. Equality with a fresh server on concrete histories is not decided.", "§4 C14"),
+ "C15": ("analysis-path coverage on typed HIR (completeness clause only)",
+         "Every expression, interpolated string and block of every statement kind reaches a usage-tracking evaluation on the path the language server takes; the usage database "
+         "and the evaluator resolve through one traversal; usages carry per-segment spans; rename builds its edits from the definition and all recorded usages. Everything "
+         "else in C15 (byte-identical output after rename, renaming back) is not decided.", "§4 C15/C16"),
+ "C16": ("analysis-path coverage on typed HIR (completeness clause only)",
+         "Same completeness clause as C15 plus single-resolver agreement and per-segment usage spans. Which occurrence binds where on concrete programs is not decided.", "§4 C15/C16"),
+ "C17": ("label propagation BYTELEN → LSP positions; dominance and shape rules on HIR",
+         "No UTF-8 byte length/offset becomes an LSP character in the formatting answer; formatting only without diagnostics; the language server and the CLI share one formatter "
+         "and the server uses default options; the edit loop advances its position tracker over deleted and unchanged chunks only. The diff-to-edit result on concrete buffers is "
+         "not decided.", "§4 C17"),
+ "C18": ("field-effect analysis on MIR + table agreement + shape rules on HIR",
+         "Pending assertions are never mutated during a run; CPU flag masks and register keys agree with the 6502 and the guide; ram16 byte order; failure iff zero/unevaluable, "
+         "success only at BRK after the assertions at that address; exit status 1 iff a test failed; memory accessors do not slice RAM unchecked. The emulator itself is external.", "§4 C18"),
+ "C19": ("guard-liveness must-analysis on MIR (lock-coverage clause only)",
+         "In the machine thread every CPU-advancing call happens under a running-state guard taken before the state test; pause reads the program counter under the guard that "
+         "covers the store of Stopped(pc); the breakpoint test dominates every step of a free run. All other interleavings and stepping semantics are not decided.", "§4 C19"),
+ "C20": ("ownership/escape rule for Arc::try_unwrap + call-graph rule for blocking accept on joined threads",
+         "No force-unwrapped Arc::try_unwrap on an Arc whose clone another long-lived owner keeps; no joined thread can sit in a blocking accept; shutdown notifies handlers "
+         "before answering and the debug session listens for it. Promptness and other session states are not decided.", "§4 C20"),
 }
 
 NA = {
+ "C13": "idempotence of the formatter is a fixed-point equation of a string function over all programs and configurations; no structural clause was found whose violation is necessary for the behaviour to break (the known counter-examples depend on how indentation interacts with the text of multi-line comments). Static analysis in reach cannot decide it; no claim (DESIGN.md §4 C13).",
 }
 
 checks = []
@@ -69,7 +104,7 @@ for i in ids:
             "level_note": TRUST,
             "technique": "static analysis: " + tech,
         })
-na = [{"property_id": i, "reason": NA.get(i, "not built yet (implementation in progress, see DESIGN.md §10)")} for i in ids if i not in CLAIMS]
+na = [{"property_id": i, "reason": NA.get(i, "not built")} for i in ids if i not in CLAIMS]
 m = {
  "version": 1,
  "setup_cmd": "cd engine/mosfacts && cargo +nightly build --release --offline && cd ../.. && python3 -m compileall -q rules check && ./check --warm",
